@@ -20,6 +20,9 @@ import (
 type modJ struct {
 	Name B      `json:"name"`
 	Arts []artJ `json:"arts"`
+	// Same: this registration is the very instance registered at that earlier position (same name,
+	// same artifacts). Harness-only: to the model it is one more module.
+	Same *int `json:"same,omitempty"`
 }
 type c13In struct {
 	Files    [][2]B   `json:"files"`
@@ -100,6 +103,11 @@ func (w *recordingWriter) Write(p []byte) (int, error) {
 
 type recMod struct {
 	idx    int
+	pos    []int // registration positions of this instance; the k-th InitContext / Execute call reports pos[k]
+	nInit  int
+	nExec  int
+	outAt  string // OutputPath() when the context was handed over
+	ctx0   pgs.BuildContext
 	name   string
 	arts   []pgs.Artifact
 	log    *evLog
@@ -120,6 +128,11 @@ func (m *recMod) InitContext(c pgs.BuildContext) {
 	}
 	ev := newEv("init")
 	ev.I = m.idx
+	if m.nInit < len(m.pos) {
+		ev.I = m.pos[m.nInit]
+	}
+	m.nInit++
+	m.outAt, m.ctx0 = c.OutputPath(), c
 	ev.Name = toB(line)
 	ev.Params = toB(c.Parameters().String())
 	ev.Out = toB(c.OutputPath())
@@ -128,7 +141,17 @@ func (m *recMod) InitContext(c pgs.BuildContext) {
 func (m *recMod) Execute(targets map[string]pgs.File, pkgs map[string]pgs.Package) []pgs.Artifact {
 	ev := newEv("exec")
 	ev.I = m.idx
+	if m.nExec < len(m.pos) {
+		ev.I = m.pos[m.nExec]
+	}
+	m.nExec++
 	var ts, ps []string
+	// the context keeps the output path it was created with, whatever happens to the parameter of
+	// that name afterwards (every module rewrites it once it has looked)
+	if got := m.ctx0.OutputPath(); got != m.outAt {
+		ts = append(ts, "\x00output path moved from "+m.outAt+" to "+got)
+	}
+	m.ctx0.Parameters().SetOutputPath(fmt.Sprintf("hijacked/by/%d", ev.I))
 	for k, f := range targets {
 		if f == nil || f.Name().String() != k {
 			k = "\x00nil-or-misnamed:" + k
@@ -293,11 +316,20 @@ func (c13Engine) Run(raw json.RawMessage) (interface{}, error) {
 		}
 		g.RegisterPostProcessor(kp)
 	}
+	var insts []*recMod
 	for i, m := range in.Mods {
-		rm := &recMod{idx: i, name: m.Name.String(), log: log, md: md, pushes: (i + len(m.Arts)) % 3}
+		if m.Same != nil && *m.Same < len(insts) {
+			rm := insts[*m.Same]
+			rm.pos = append(rm.pos, i)
+			insts = append(insts, rm)
+			g.RegisterModule(rm)
+			continue
+		}
+		rm := &recMod{idx: i, pos: []int{i}, name: m.Name.String(), log: log, md: md, pushes: (i + len(m.Arts)) % 3}
 		for _, a := range m.Arts {
 			rm.arts = append(rm.arts, a.toArtifact())
 		}
+		insts = append(insts, rm)
 		g.RegisterModule(rm)
 	}
 	var first pgs.AST
@@ -332,7 +364,8 @@ func (c13Engine) Gen(g *Gen) {
 		{[][2]string{{"t.proto", "t"}}, [][]string{{"t.proto"}}},
 		{[][2]string{{"a.proto", "p"}, {"b.proto", "p.q"}, {"c.proto", ""}, {"d.proto", "p"}}, [][]string{{"a.proto"}, {"c.proto", "a.proto"}, {"a.proto", "b.proto", "c.proto", "d.proto"}}},
 	}
-	params := []string{"", "output_path=gen", "foo=bar,output_path=/abs/x/../y,flag", "paths=source_relative,output_path=", "a=1,a=2"}
+	params := []string{"", "output_path=gen", "foo=bar,output_path=/abs/x/../y,flag", "paths=source_relative,output_path=", "a=1,a=2",
+		"ldflags=-X=main.v=1,output_path=gen=dir", "x=,=y,output_path=a=", "Mfoo.proto=example.com/foo;foo,plugins=grpc"}
 	mutatorSets := [][][2]string{{}, {{"output_path", "mut/./d"}}, {{"k", "v"}, {"k", "w"}, {"", "e"}}}
 	legal := func(j int, have *[]string) artJ {
 		r := g.Rng.Intn(10)
@@ -382,6 +415,10 @@ func (c13Engine) Gen(g *Gen) {
 				m.Arts = append(m.Arts, legal(i*10+j, &have))
 			}
 			in.Mods = append(in.Mods, m)
+		}
+		if nm > 0 && g.Rng.Intn(5) == 0 { // the same instance registered a second time
+			j := g.Rng.Intn(nm)
+			in.Mods = append(in.Mods, modJ{Name: in.Mods[j].Name, Arts: in.Mods[j].Arts, Same: &j})
 		}
 		if g.Rng.Intn(2) == 0 {
 			f := uint64(g.Rng.Intn(3))
